@@ -42,7 +42,7 @@ def rtitles(pid):
     return "\n".join(out)
 HINTS = json.load(open(os.path.join(V, "tools", "rewrite_hints.json"))) if os.path.exists(os.path.join(V, "tools", "rewrite_hints.json")) else {}
 for pid, p in sorted(props.items()):
-    if pid == "C16" or (only and pid not in only): continue
+    if (only and pid not in only) or (pid == "C16" and not only): continue
     wt = f"/tmp/sa/{pid}-{'s' if kind == 'seeded' else 'r'}"
     if not os.path.exists(wt):
         subprocess.run(["git", "-C", "/repo", "worktree", "add", "-q", "--detach", wt, "HEAD"], check=True)
